@@ -1,6 +1,326 @@
-//! C07 — not built yet.
+//! C07 — mutual close pays the holder its due to an owned or allowlisted destination.
+//!
+//! Same execution world and Lean model as C05 (`c05_world.rs`, model `mclose`): the channel state is
+//! reached by real commitment updates (sign counterparty commitment / validate holder commitment /
+//! revoke / counterparty revocation), then cooperative closes are requested through both entry points
+//! (`sign_mutual_close_tx_phase2`, `sign_mutual_close_tx`) with values at the ε and fee edges, all
+//! script/path/allowlist variants, both output orders, 0–3 outputs.  Monitor: `CloseOK` evaluated with
+//! u128/i128 arithmetic on every returned signature, the `channel_closed` flag, and the signature is
+//! verified against a closing transaction built independently from scratch.
 use crate::common::*;
+use std::sync::OnceLock;
+
+#[path = "c05_world.rs"]
+pub mod world;
+use world::*;
+
+pub struct C07;
+
+const SIDS: [u64; 12] = [1, 2, 3, 4, 5, 6, 10, 11, 12, 20, 21, 22];
+
+/// script bytes per sid (wallet scripts depend only on the fixed test seed)
+fn script_table() -> &'static Vec<(u64, Vec<u8>)> {
+    static T: OnceLock<Vec<(u64, Vec<u8>)>> = OnceLock::new();
+    T.get_or_init(|| {
+        let node = lightning_signer::util::test_utils::init_node(
+            lightning_signer::util::test_utils::TEST_NODE_CONFIG,
+            lightning_signer::util::test_utils::TEST_SEED[1],
+        );
+        SIDS.iter().map(|s| (*s, script_of(&node, *s).to_bytes())).collect()
+    })
+}
+fn script_bytes(sid: u64) -> &'static [u8] {
+    &script_table().iter().find(|(s, _)| *s == sid).unwrap().1
+}
+
+fn close_weight(outs: &[(u64, u64)]) -> u128 {
+    let mut size: u128 = 4 + 1 + 41 + 1 + 4;
+    for (v, sid) in outs {
+        if *v > 0 {
+            size += 9 + script_len(*sid) as u128;
+        }
+    }
+    4 * size + 222
+}
+
+fn fee_for_rate(rate: u128, w: u128, hi: bool) -> u128 {
+    if hi {
+        (((rate + 1) * w).saturating_sub(1000)) / 1000
+    } else {
+        (rate * w).saturating_sub(999).div_ceil(1000)
+    }
+}
+
+fn pick(rng: &mut Rng, xs: &[u64]) -> u64 {
+    *rng.pick(xs)
+}
+
+struct Dest {
+    sid: u64,
+    spend: bool, // path = the script's own wallet index
+    allow: bool,
+}
+
+impl Group for C07 {
+    fn property(&self) -> &'static str {
+        "C07"
+    }
+    fn model(&self) -> Option<&'static str> {
+        Some("mclose")
+    }
+    fn rule(&self) -> &'static str {
+        "non-trivial = the channel reached a state with both current commitments by real updates, at least one closing request was answered, and the case contains both an accepted and a refused request"
+    }
+    fn budget(&self, tier: Tier) -> usize {
+        match tier {
+            Tier::Quick => 1500,
+            Tier::Thorough => 30000,
+        }
+    }
+    fn corpus(&self) -> Vec<Vec<String>> {
+        let v = |s: &[&str]| s.iter().map(|x| x.to_string()).collect::<Vec<_>>();
+        vec![
+            // funder closes to its own wallet address, both phases; then no new holder commitment
+            v(&[
+                "policy 0 4 2016 1000000001 10000 1000 16777216 0 253 333333 222000 0",
+                "setup 1 3000000 0 6 7 1 0 0 0",
+                "cp 0 0 0 2999000 0 0 0",
+                "hold 0 0 2999000 0 0 0 1",
+                "revoke 0",
+                "cp 1 0 0 1999000 1000000 0 0",
+                "hold 1 0 1999000 1000000 0 0 1",
+                "revoke 1",
+                "close2 1998000 1000000 1 3 22 1 0 1 20 22 0 0",
+                "close1 2 1 2 1000000 20 22 0 0 1998000 3 22 1 0",
+                "hold 2 0 1999000 1000000 0 0 1",
+                "close2 1998000 1000000 1 20 22 0 0 1 20 22 0 0",
+            ]),
+            // finding C07-S1: with max_feerate_per_kw = u32::MAX a funder close burning 31 BTC as fee is signed
+            v(&[
+                "policy 0 4 2016 10000000000 10000 1000 16777216 0 253 4294967295 222000 0",
+                "setup 1 5000000000 0 6 7 1 0 0 0",
+                "cp 0 0 0 4999999000 0 0 0",
+                "hold 0 0 4999999000 0 0 0 1",
+                "revoke 0",
+                "close2 1899033614 0 1 1 22 1 0 0 0 0 0 0",
+            ]),
+            // fundee: holder value must be within epsilon of both commitments
+            v(&[
+                "policy 0 4 2016 1000000001 10000 1000 16777216 0 253 333333 222000 0",
+                "allow 10",
+                "setup 0 3000000 0 6 7 3 0 0 0",
+                "cp 0 0 0 0 2998000 0 0",
+                "hold 0 0 0 2998000 0 0 1",
+                "revoke 0",
+                "cp 1 0 0 1000000 1998000 0 0",
+                "hold 1 0 1005000 1993000 0 0 1",
+                "revoke 1",
+                "close2 989999 2008000 1 10 22 0 1 1 21 34 0 0",
+                "close2 995000 2003000 1 10 22 0 1 1 21 34 0 0",
+                "close1 2 1 2 995000 10 22 0 1 2003000 21 34 0 0",
+            ]),
+        ]
+    }
+    fn gen_case(&self, rng: &mut Rng, _tier: Tier) -> Vec<String> {
+        let mut ops = Vec::new();
+        let mut pol = Pol::default_testnet();
+        pol.eps = pick(rng, &[10_000, 10_000, 0, 1, 1_000, 1_000_000]);
+        pol.min_fee = pick(rng, &[253, 253, 0, 1000]);
+        pol.max_fee = pick(rng, &[333_333, 333_333, 25_000, 5_000, 4_294_967_294, 4_294_967_295]);
+        pol.onchain = rng.chance(1, 5);
+        pol.mask = match rng.below(14) {
+            0 => 1 << (12 + rng.below(4)),
+            1 => 1 << pick(rng, &[21, 22, 13, 15]),
+            2 if rng.chance(1, 3) => 1 << BIT_PERMISSIVE,
+            _ => 0,
+        };
+        let outbound = rng.chance(1, 2);
+        let value: u64 = match rng.below(10) {
+            0 => 5_000_000_000,
+            1 => 10_000_000,
+            2 => rng.range(1_000_000, 100_000_000),
+            _ => 3_000_000,
+        };
+        pol.max_chan = pol.max_chan.max(value);
+        ops.push(pol.line());
+        // allowlist
+        let mut allow: Vec<u64> = Vec::new();
+        for s in [10u64, 11, 12, 2] {
+            if rng.chance(1, 3) {
+                allow.push(s);
+            }
+        }
+        if !allow.is_empty() {
+            ops.push(format!("allow {}", allow.iter().map(|s| s.to_string()).collect::<Vec<_>>().join(" ")));
+        }
+        // upfront shutdown script
+        let (upfront, up_spend) = match rng.below(10) {
+            0 | 1 => (pick(rng, &[1, 2, 3, 4]), true),
+            2 => (pick(rng, &[10, 11]), false),
+            3 => (pick(rng, &[20, 3]), false),
+            _ => (0, false),
+        };
+        let up_allow = upfront != 0 && allow.contains(&upfront);
+        let ctype = pick(rng, &[1, 3]);
+        let setup = SetupNums { outbound, value, push: 0, holder_delay: 6, cp_delay: 7, ctype, upfront, up_spend, up_allow };
+        ops.push(setup.line());
+        // ---- reach a state by real updates ----
+        let base_w: u128 = if ctype == 3 { 1124 } else { 724 };
+        let f0 = fee_for_rate(1000 + rng.below(2000) as u128, base_w, false) as u64;
+        let (h0, c0) = if outbound { (value - f0, 0) } else { (0, value - f0) };
+        ops.push(Commit { n: 0, feerate: 0, to_holder: h0, to_cp: c0, offered: vec![], received: vec![] }.cp_line(0));
+        ops.push(Commit { n: 0, feerate: 0, to_holder: h0, to_cp: c0, offered: vec![], received: vec![] }.hold_line(true));
+        ops.push("revoke 0".into());
+        // commitment 1: balances A (holder) / B (counterparty); the two sides' views differ by d
+        let f1 = f0 + rng.below(500);
+        let a = match rng.below(8) {
+            0 => 0,
+            1 => value - f1,
+            // both sides' balances within epsilon of each other: the likely/unlikely guess matters
+            2 | 3 => ((value - f1) / 2).saturating_sub(pol.eps / 2) + rng.below(pol.eps + 2),
+            _ => rng.range(400, value - f1 - 400),
+        };
+        let b = value - f1 - a;
+        let d = pick(rng, &[0, 0, 0, 1, pol.eps, pol.eps + 1, pol.eps.saturating_sub(1), pol.eps / 2]);
+        let clean = |x: u64| if x > 0 && x < 354 { 0 } else { x };
+        // holder's own commitment: holder has A, counterparty B; counterparty's commitment: shifted by d
+        let (ah, bh) = (clean(a), clean(b));
+        let (ac, bc) = if rng.chance(1, 2) {
+            (clean(a.saturating_sub(d)), clean(b + d.min(a)))
+        } else {
+            (clean(a + d.min(b)), clean(b.saturating_sub(d)))
+        };
+        let pending = rng.below(8);
+        let htlc_cp = if pending == 0 { vec![(5_000u64, 1_000u64)] } else { vec![] };
+        let htlc_h = if pending == 1 { vec![(5_000u64, 1_000u64)] } else { vec![] };
+        let sub = |x: u64, l: &Vec<(u64, u64)>| x.saturating_sub(l.iter().map(|p| p.0).sum::<u64>());
+        let depth = rng.below(5);
+        if depth > 0 {
+            if pol.onchain {
+                ops.push("chain 1000 3 0".into());
+            }
+            // the counterparty's commitment: HTLC offered by the counterparty (incoming to the holder)
+            let cm_c = if bc >= 5_400 || htlc_cp.is_empty() {
+                Commit { n: 1, feerate: 0, to_holder: ac, to_cp: clean(sub(bc, &htlc_cp)), offered: htlc_cp.clone(), received: vec![] }
+            } else {
+                Commit { n: 1, feerate: 0, to_holder: ac, to_cp: bc, offered: vec![], received: vec![] }
+            };
+            ops.push(cm_c.cp_line(0));
+            if depth > 1 {
+                let cm_h = if bh >= 5_400 || htlc_h.is_empty() {
+                    Commit { n: 1, feerate: 0, to_holder: ah, to_cp: clean(sub(bh, &htlc_h)), offered: vec![], received: htlc_h.clone() }
+                } else {
+                    Commit { n: 1, feerate: 0, to_holder: ah, to_cp: bh, offered: vec![], received: vec![] }
+                };
+                ops.push(cm_h.hold_line(true));
+                if depth > 2 {
+                    ops.push("revoke 1".into());
+                    if rng.chance(1, 2) {
+                        ops.push("cprevoke 0".into());
+                    }
+                }
+            }
+        }
+        // current values as the generator expects them (if everything above was accepted)
+        let (cur_ah, cur_bh) = if depth > 2 { (ah, bh) } else { (h0, c0) };
+        let (cur_ac, cur_bc) = if depth > 0 { (ac, bc) } else { (h0, c0) };
+        // ---- closing requests ----
+        let nclose = 2 + rng.below(4);
+        for j in 0..nclose {
+            // destination of the holder output
+            let hd = match rng.below(10) {
+                0 | 1 | 2 => { let s = pick(rng, &[1, 2, 3, 4, 5, 6]); Dest { sid: s, spend: true, allow: allow.contains(&s) } }
+                3 => { let s = pick(rng, &[1, 2, 3, 4]); Dest { sid: s, spend: false, allow: allow.contains(&s) } }
+                4 | 5 => { let s = pick(rng, &[10, 11, 12]); Dest { sid: s, spend: false, allow: allow.contains(&s) } }
+                6 => { let s = pick(rng, &[20, 21, 22]); Dest { sid: s, spend: false, allow: false } }
+                _ if upfront != 0 => Dest { sid: upfront, spend: up_spend, allow: allow.contains(&upfront) },
+                _ => { let s = pick(rng, &[1, 2, 3, 4]); Dest { sid: s, spend: true, allow: allow.contains(&s) } }
+            };
+            let cd = { let s = pick(rng, &[20, 21, 22, 10]); Dest { sid: s, spend: false, allow: allow.contains(&s) } };
+            // value of the side that does not pay the fee, at the ε edges of one of the two commitments
+            let due = if outbound { if rng.chance(1, 2) { cur_bc } else { cur_bh } } else if rng.chance(1, 2) { cur_ah } else { cur_ac };
+            let fixed = match rng.below(9) {
+                0 => due.saturating_add(pol.eps),
+                1 => due.saturating_add(pol.eps + 1),
+                2 => due.saturating_sub(pol.eps),
+                3 => due.saturating_sub(pol.eps + 1),
+                4 => due.saturating_add(1),
+                _ => due,
+            };
+            let fixed = fixed.min(value);
+            // fee at the edges of the feerate range, on the weight of the 2-output transaction
+            let mk = |fee: u64| -> (u64, u64) {
+                let rest = value.saturating_sub(fixed).saturating_sub(fee);
+                if outbound { (rest, fixed) } else { (fixed, rest) }
+            };
+            let w2 = close_weight(&[(1, hd.sid), (1, cd.sid)]);
+            let fee = match rng.below(9) {
+                0 => fee_for_rate(pol.min_fee as u128, w2, false).saturating_sub(1),
+                1 => fee_for_rate(pol.min_fee as u128, w2, false),
+                2 => fee_for_rate(pol.max_fee as u128, w2, true),
+                3 => fee_for_rate(pol.max_fee as u128, w2, true) + 1,
+                4 => (1u128 << 32) * w2 / 1000 + 700,
+                _ => fee_for_rate(1000 + rng.below(5000) as u128, w2, false),
+            }
+            .min(value as u128) as u64;
+            let (mut hv, mut cv) = mk(fee);
+            match rng.below(14) {
+                0 => hv = 0,
+                1 => cv = 0,
+                2 => hv = hv.saturating_add(value), // outputs above the channel value
+                3 => cv = u64::MAX - hv.min(5),     // sum overflow candidates
+                _ => {}
+            }
+            let phase1 = rng.chance(1, 2);
+            if !phase1 {
+                let hp = !(rng.chance(1, 12) || (hv == 0 && rng.chance(1, 2)));
+                let cp = !(rng.chance(1, 12) || (cv == 0 && rng.chance(1, 2)));
+                ops.push(format!(
+                    "close2 {} {} {} {} {} {} {} {} {} {} 0 {}",
+                    hv, cv, hp as u8, hd.sid, script_len(hd.sid), (hd.spend && is_wallet_sid(hd.sid)) as u8, hd.allow as u8,
+                    cp as u8, cd.sid, script_len(cd.sid), cd.allow as u8
+                ));
+            } else {
+                // the transaction: outputs (value, sid, len, canSpend-under-its-path, allowlisted)
+                let mut outs: Vec<(u64, &Dest)> = Vec::new();
+                if hv > 0 || rng.chance(1, 10) { outs.push((hv, &hd)) }
+                if cv > 0 || rng.chance(1, 10) { outs.push((cv, &cd)) }
+                let extra = Dest { sid: 22, spend: false, allow: false };
+                if rng.chance(1, 25) { outs.push((1000, &extra)) }
+                // canonical order = by (value, script bytes); sometimes the other order
+                outs.sort_by(|x, y| x.0.cmp(&y.0).then_with(|| script_bytes(x.1.sid).cmp(script_bytes(y.1.sid))));
+                if outs.len() == 2 && rng.chance(1, 8) { outs.swap(0, 1) }
+                let sorted = outs.windows(2).all(|w| (w[0].0, script_bytes(w[0].1.sid)) <= (w[1].0, script_bytes(w[1].1.sid)));
+                let nonzero = outs.iter().all(|o| o.0 > 0);
+                let mut canon = sorted && nonzero;
+                if canon && rng.chance(1, 12) { canon = false } // the harness perturbs the lock time
+                let npaths = if rng.chance(1, 20) { outs.len() + 1 } else { outs.len() };
+                let mut l = format!("close1 {} {} {}", npaths, canon as u8, outs.len());
+                for (v, dd) in &outs {
+                    l += &format!(" {} {} {} {} {}", v, dd.sid, script_len(dd.sid), (dd.spend && is_wallet_sid(dd.sid)) as u8, dd.allow as u8);
+                }
+                ops.push(l);
+            }
+            // after a close: new holder commitments must be refused, retries are fine
+            if j + 1 < nclose && rng.chance(1, 4) {
+                let nn = if depth > 2 { 2 } else { 1 };
+                ops.push(Commit { n: nn, feerate: 0, to_holder: cur_ah, to_cp: cur_bh, offered: vec![], received: vec![] }.hold_line(true));
+                if rng.chance(1, 2) { ops.push(format!("revoke {}", nn)) }
+            }
+        }
+        ops
+    }
+    fn exec_case(&self, ops: &[String]) -> CaseOut {
+        let mut out = run_case(ops);
+        let closes = ops.iter().zip(out.out.iter()).filter(|(o, r)| o.starts_with("close") && !r.starts_with("dead") && !r.starts_with("nochan")).count();
+        let signed = out.tags.contains("close:signed");
+        let refused = ops.iter().zip(out.out.iter()).any(|(o, r)| o.starts_with("close") && r.starts_with("err"));
+        out.nontrivial = closes > 0 && signed && refused;
+        if signed { out.tags.insert("case:signed".into()); }
+        out
+    }
+}
 
 pub fn groups() -> Vec<Box<dyn Group>> {
-    vec![]
+    vec![Box::new(C07)]
 }
